@@ -192,3 +192,85 @@ func vC16Throttle(n int) {
 
 func vhC16_throttle_n2() { vC16Throttle(2) }
 func vhC16_throttle_n3() { vC16Throttle(3) }
+
+// SampleTime / BufferWithTime: at most one value per tick (sample); outputs are a
+// subsequence (sample) or a partition (buffer) of what the source emitted during
+// THIS subscription, in source order; silence after unsubscription.  The same
+// observable is subscribed twice in sequence (the second subscription must not
+// see anything of the first).
+func vC16Sample(n int) {
+	// the period is concrete here (1000 ns): with symbolic gaps AND a symbolic period the
+	// tick/deadline case analysis needs ~100 ms of solver time per branch (measured); the
+	// gaps between emissions stay symbolic
+	d := int64(1000)
+	which := vChoice("op", 2)
+	p := &vProbe{name: "src"}
+	var obsInt Observable[int64]
+	var obsBuf Observable[[]int64]
+	name := "SampleTime"
+	if which == 0 {
+		obsInt = SampleTime[int64](time.Duration(d))(p)
+	} else {
+		name = "BufferWithTime"
+		obsBuf = BufferWithTime[int64](time.Duration(d))(p)
+	}
+	next := int64(1)
+	for round := 0; round < 2; round++ {
+		out := vNewStamped()
+		var sub Subscription
+		if which == 0 {
+			sub = obsInt.SubscribeWithContext(context.Background(), vObs(out.rec, vFlatInt))
+		} else {
+			sub = obsBuf.SubscribeWithContext(context.Background(), vObs(out.rec, vFlatSlice))
+		}
+		vQuiesce()
+		first := next
+		for i := 0; i < n; i++ {
+			g := vGap("g" + vItoa(round) + "_" + vItoa(i))
+			vAssume(g <= d) // at most one tick per gap keeps the case analysis small
+			vAdvance(g)
+			vQuiesce()
+			if vChoice("emit"+vItoa(round)+"_"+vItoa(i), 2) == 1 {
+				p.emit(vStep{vkNext, next})
+				next++
+			}
+		}
+		vAdvance(d)
+		vAdvance(1)
+		vQuiesce()
+		sub.Unsubscribe()
+		vQuiesce()
+		seen := len(out.rec.evs)
+		vAdvance(d)
+		vQuiesce()
+		vAssert(len(out.rec.evs) == seen, name+": a notification was delivered after unsubscription")
+		// every delivered value was emitted by the source during this subscription, in order
+		prev := first - 1
+		for i, e := range out.rec.evs {
+			if e.kind != vkNext {
+				continue
+			}
+			vals := e.vals
+			if which == 1 {
+				vals = e.vals[1:]
+			}
+			for _, v := range vals {
+				vAssert(v >= first && v < next, name+": a value was emitted that the source did not emit during this subscription")
+				vAssert(v > prev, name+": values were emitted out of source order or twice")
+				prev = v
+			}
+			if which == 0 && i > 0 && out.rec.evs[i-1].kind == vkNext {
+				vAssert(out.stamps[i] > out.stamps[i-1], name+": more than one value was emitted for one tick")
+			}
+		}
+		if which == 1 {
+			vAssert(prev == next-1, name+": a value of the source is missing from the buffers")
+		}
+		run, blk := vLive()
+		vAssert(run+blk == 0, name+": a goroutine is left after unsubscription")
+	}
+	vReach("end")
+}
+
+func vhC16_sample_n2() { vC16Sample(2) }
+func vhC16_sample_n3() { vC16Sample(3) }
